@@ -76,6 +76,11 @@ def check_stft(case):
         rtol, afrac = 2e-4, 2e-5
     ref = call("compute_full", comp.compute_full, x.astype(np.float64) if prec != "double" else x)
     with torch.no_grad():
+        if case.get("prior_n") is not None:
+            # the module (and the NumPy computer) may have been called before on another signal
+            y = make_signal({"n": case["prior_n"], "kind": "noise", "seed": 5, "scale": 3.0}, x.dtype)
+            if not (L // 2 + 1 <= len(y) < L):
+                call("torch module forward (earlier call)", mod, torch.from_numpy(y))
         out = call("torch module forward", mod, torch.from_numpy(x.copy()))
     require(isinstance(out, torch.Tensor) and out.ndim == 2, "module returned {!r}", type(out))
     got = out.numpy().astype(np.float64)
@@ -236,7 +241,10 @@ def _stft_cases(draw):
     comp = draw(stft_specs(max_len=48))
     L = comp["L"]
     n = draw(st.one_of(st.integers(L, 5 * L + 3), st.integers(0, L // 2), st.sampled_from([L, L + 1, 2 * L, 0, L // 2])))
+    if draw(st.integers(0, 24)) == 0:
+        n = draw(st.sampled_from([4097, 10000, 16385]))
     return {
+        "prior_n": draw(st.one_of(st.none(), st.none(), st.integers(0, 4 * L))),
         "comp": comp,
         "sig": draw(signal_specs(st.just(n))),
         "prec": draw(st.sampled_from(["double", "double", "single", "default"])),
